@@ -177,10 +177,53 @@ except BaseException as e:
     return dict(reproduced=bool(violated), violated=violated, observed=dict(returncode=rc, stdout=out[-200:]))
 
 
+def base_trait_case(case):
+    """C18: HasTraits.base_trait / _trait(name, -2) on a broken delegation chain raises and costs no reference."""
+    import sys as _sys
+    from traits.api import HasTraits, DelegatesTo, Any, Property
+    violated = []
+
+    class A(HasTraits):
+        d = Any
+        x = DelegatesTo("d")
+
+    class B(HasTraits):
+        d = Property()
+
+        def _get_d(self):
+            raise ZeroDivisionError("no delegate today")
+        x = DelegatesTo("d", listenable=False)
+    for label, obj in (("delegate is None (not a HasTraits object)", A()), ("delegate lookup raises", B())):
+        t = type(obj).class_traits()["x"]
+        r0 = _sys.getrefcount(t)
+        n = 40
+        raised = 0
+        for _ in range(n):
+            try:
+                obj.base_trait("x")
+            except Exception:
+                raised += 1
+        leaked = _sys.getrefcount(t) - r0
+        if raised != n:
+            violated.append("%s: base_trait('x') did not raise (%d of %d)" % (label, raised, n))
+        if leaked:
+            violated.append("%s: %d failing base_trait('x') calls leaked %d references to the trait definition" % (label, n, leaked))
+
+    # the good path: the base trait of a chain is the final, non-delegating trait
+    class Leaf(HasTraits):
+        x = Any(3)
+    leaf = Leaf()
+    a = A(d=A(d=leaf))
+    bt = a.base_trait("x")
+    if bt is not leaf.trait("x") or bt.type == "delegate":
+        violated.append("base_trait did not follow the chain to the non-delegating trait: %r" % (bt,))
+    return dict(reproduced=bool(violated), violated=violated)
+
+
 def main():
     case = json.loads(sys.stdin.read())
     out = {"listener": listener_case, "setattr_delegate": setattr_delegate_case,
-           "getattr_delegate": getattr_delegate_case}[case["family"]](case)
+           "getattr_delegate": getattr_delegate_case, "base_trait": base_trait_case}[case["family"]](case)
     print(json.dumps(out, default=repr))
 
 
